@@ -5,6 +5,7 @@
 (*   "map"  - qhashtbl / qtreetbl: key -> value, 0 = absent, Keys = 1..NK                            *)
 (*   "mmap" - qlisttbl with default options: sequence of <<key, value>>, put appends, lookups and    *)
 (*            walks run from the bottom (most recent first)                                          *)
+(*   "umap" - qlisttbl with the unique option: as "mmap", but a put replaces the entries of its key   *)
 (* An operation is a record [op, a, b]; SApply gives <<state', out, outs>> (integer result and        *)
 (* sequence result).  Elements and values are >= 1, so 0 can mean "none".                             *)
 EXTENDS Integers, Sequences, FiniteSets
@@ -38,5 +39,8 @@ MMapApply(s, o) ==
     [] o.op = "remove" -> <<SelectSeq(s, LAMBDA e : e[1] # o.a), Len(match), <<>>>>
     [] o.op = "clear" -> <<<<>>, 1, <<>>>>
     [] o.op = "walk" -> <<s, Len(s), Rev(s)>>
-SApply(kind, s, o) == IF kind = "seq" THEN SeqApply(s, o) ELSE IF kind = "map" THEN MapApply(s, o) ELSE MMapApply(s, o)
+\* "umap": qlisttbl with the unique option: a put first drops every entry of that key, all within one critical section
+UMapApply(s, o) == IF o.op = "put" THEN <<Append(SelectSeq(s, LAMBDA e : e[1] # o.a), <<o.a, o.b>>), 1, <<>>>> ELSE MMapApply(s, o)
+SApply(kind, s, o) == IF kind = "seq" THEN SeqApply(s, o) ELSE IF kind = "map" THEN MapApply(s, o)
+                      ELSE IF kind = "umap" THEN UMapApply(s, o) ELSE MMapApply(s, o)
 ===========================================================================
